@@ -95,7 +95,7 @@ class PrintUsingFormatter:
         output = ''
         i = 0
         for (fmt_type, fmt, options) in fmt_parts:
-            if fmt_type != 'non' and i >= len(fmt_parts):
+            if fmt_type != 'non' and i >= len(values):
                 raise RuntimeError('Not enough values.')
 
             if fmt_type == 'non':
@@ -103,9 +103,13 @@ class PrintUsingFormatter:
             elif fmt_type == 'str':
                 if not isinstance(values[i], str):
                     raise RuntimeError('Type mismatch.')
+                if fmt == '!' and values[i] == '':
+                    raise RuntimeError('Empty string for a "!" field.')
                 output += values[i][0] if fmt == '!' else values[i]
                 i += 1
             elif fmt_type == 'num':
+                if isinstance(values[i], str):
+                    raise RuntimeError('Type mismatch.')
                 output += self.format_number(fmt, values[i], options)
                 i += 1
             else:
